@@ -195,8 +195,8 @@ PROPS["C11"] = dict(
     design_ref="DESIGN.md §4 C11",
     assumptions=["A-DRF (data-race freedom between visible operations)", "stub DataSource.Load yields once while the request is in flight and returns the caller's context error if cancelled by then"],
     stubs=["sync.Map, sync.Mutex/RWMutex/WaitGroup, sync/atomic, channels/select, sync.Pool (always New), go-arena Pool (no arena)", "context.WithValue modelled; rest of context interpreted"],
-    quick=[c11(2, 0, 0, 2), c11(2, 0, 1, 2)],
-    thorough=[c11(2, 0, 1, 3), c11(3, 0, 0, 2, 3000)],
+    quick=[c11(2, 0, 0, 2), c11(2, 0, 1, 2), c11(2, 1, 0, 2)],
+    thorough=[c11(2, 0, 1, 3), c11(2, 1, 1, 2, 3000), c11(3, 0, 0, 2, 3000)],
 )
 
 NOT_APPLICABLE = {
